@@ -90,6 +90,13 @@ def contexts(check, wp, maxn, vers=("7.4", "5.6"), batch=300):
         for b in bodies:
             body = "".join(xch if c == "x" else CH[c] for c in b)
             cases.append((name, b, pre + body + suf))
+    # tokens that span many lines and start in column 0 (GetLine walks back from the end of the table: the distance matters)
+    for name, pre, suf in (("long-block-comment", "<?php\n/*", "*/\n$a;"), ("long-doc-comment", "<?php $z;\n/**", "*/ $a;"), ("long-html", "<?php $a;\n?>\n", ""),
+                           ("long-html-first", "", "<?php $a;"), ("long-single-quoted", "<?php $s =\n'", "';\n$t = 1;"), ("long-nowdoc", "<?php $s = <<<'E'\n", "\nE;\n$t;"),
+                           ("long-heredoc", "<?php\n<<<E\n", "\nE;\n"), ("long-double-quoted", "<?php\n\"", "\" . $a;")):
+        for nlines in (1, 2, 31, 32, 33, 34, 40, 65, 130):
+            for nl in ("\n", "\r\n", "\r"):
+                cases.append((name, "%d lines %r" % (nlines, nl), pre + ("x y" + nl) * nlines + "z" + suf))
     bad = []
     n = 0
     for ver in vers:
